@@ -58,8 +58,17 @@ func NewUnpackInfo(dst string, header *tar.Header) (UnpackInfo, error) {
 	// immediate parent directory of the file name in the tarball, checking
 	// the mode on each to ensure we wouldn't be passing through any
 	// symlinks.
+	//
+	// The components are those of the cleaned path that will really be
+	// used, not of the raw entry name: in a name such as "missing/../link/x"
+	// the raw walk would stop at "missing" (which does not exist) and never
+	// look at "link".
 	currentPath := dst // Start at the root of the unpacked tarball.
-	components := strings.Split(header.Name, "/")
+	relTarget, err := filepath.Rel(cleanDst, target)
+	if err != nil {
+		return UnpackInfo{}, fmt.Errorf("failed to evaluate path %q: %w", header.Name, err)
+	}
+	components := strings.Split(filepath.ToSlash(relTarget), "/")
 
 	for i := 0; i < len(components)-1; i++ {
 		currentPath = filepath.Join(currentPath, components[i])
